@@ -270,12 +270,12 @@ ErSeq(elems, env, kept, names) ==
 ErStmts(stmts, env, acc) ==
   IF stmts = <<>> THEN acc
   ELSE LET s == Head(stmts) IN
-       IF s.t = "EmptyStatement" \/ IsInjDecl(s, env) \/ IsPrologueIf(s)
+       IF s.t = "EmptyStatement" \/ s.t = "_Prologue" \/ IsInjDecl(s, env) \/ IsPrologueIf(s)
        THEN ErStmts(Tail(stmts), env, acc)
        ELSE ErStmts(Tail(stmts), env, Append(acc, Er(s, env)))
 
 IsStmtList(n) == n.t = "_L" /\ \E i \in 1..Len(n.c) :
-                    n.c[i].t \in {"EmptyStatement", "VariableDeclaration", "IfStatement"}
+                    n.c[i].t \in {"EmptyStatement", "VariableDeclaration", "IfStatement", "_Prologue"}
 
 Er(n, env) ==
   CASE n.t = "ParenthesisExpression" -> Er(n.c[1], env)
